@@ -84,7 +84,7 @@ CHECKS = {
                        "FromChannel: every value sent before the close is delivered, then Complete; no completion without a close; after Unsubscribe nothing is delivered, later values "
                        "stay in the channel, and the reader goroutine exits (a leftover is reported when the bubble ends). ToSlice / ToMap / Collect equal the delivered values (last "
                        "write wins), emitted once at completion; Materialize|Dematerialize is the identity on every word, including producers that go on after their terminal."
-                       " Materialize|Dematerialize also over streams ending with Error(nil)."),
+                       " Materialize|Dematerialize also over streams ending with Error(nil). ToChannel subscribed with an already-cancelled context: whatever is read is a prefix of the materialised stream and the channel is closed once the stream has ended."),
         "level_note": "A send that loses the race with the close is recovered inside the library and may reach OnUnhandledError: counted, not judged (it is the designated sink).",
     },
     "C16": {
@@ -170,7 +170,7 @@ CHECKS = {
                        "observed output must be the model's output for some interleaving compatible with each source's own order."
                        " Free-running producers: one goroutine per source, repeated; the observed output must be a member of the set of model outputs over all interleavings; WindowWhen with source and boundary on two goroutines (and with a producer driven by window completions) is judged by a validity predicate (windows concatenate to the source's values, every window closed)."
                        " Random arrival orders with up to 3 values per source (three sources included); GroupBy |> Take(n) |> MergeAll and a hand-written consumer that stops inside the Next delivering the n-th group: the item that opened a delivered group is not lost."
-                       " The hand-written higher arities (MergeWith3/4, CombineLatest4/5, CombineLatestWith3/4, Zip4..6, ZipWith3..5, ZipAll and CombineLatestAll over 3-4 sources, CombineLatestAny) take part in the random arrival orders and in the concurrent membership check. A quarter of the random arrival orders carry values whose own context is already cancelled: the step model is unchanged."),
+                       " The hand-written higher arities (MergeWith3/4, CombineLatest4/5, CombineLatestWith3/4, Zip4..6, ZipWith3..5, ZipAll and CombineLatestAll over 3-4 sources, CombineLatestAny) take part in the random arrival orders and in the concurrent membership check. A quarter of the random arrival orders carry values whose own context is already cancelled: the step model is unchanged. Interface-typed instantiations (CombineLatestAny, CombineLatestAll/ZipAll/Merge/Race[any], CombineLatest2/Zip2[any,any]) are fed streams whose values have different dynamic types, nil included (a one-to-one dressing of the ints, undone on the way out): same step model."),
         "level_note": ("Two listed findings pinned by the suite (TakeUntil/SkipUntil notifier error, SequenceEqual prefix comparison). The concurrent part only sees the schedules the "
                        "scheduler produces. FlatMap with asynchronous inners is covered through Concat + the cold-inner rows of C04."),
     },
@@ -190,7 +190,7 @@ CHECKS = {
                        "delivered its terminal and had its teardown run. Retry under cancellation: no further attempt and Error(context.Canceled)."
                        " Asynchronous attempts are repeated in virtual time with teardowns that take time and a first notification that comes after the operator started waiting: the next attempt may only be subscribed once the previous teardown has FINISHED."
                        " Retry with a Delay (virtual time): spacing, budget, and a cancellation of the subscription context during a wait ends the stream at that instant whatever context the failed attempt's error carried."
-                       " The same operators over attempts ending with Error(nil): same output, same number of subscriptions of the source as with a non-nil error."),
+                       " The same operators over attempts ending with Error(nil): same output, same number of subscriptions of the source as with a non-nil error. Budgets at the top of the parameter range (Retry MaxRetries = MaxUint64, MaxUint64-1, MaxInt64; RepeatWith(MaxInt64)) behave as "as many as it takes"."),
         "level_note": "Catch is a listed finding (fallback subscribed from inside the error callback). Retry with a Delay is exercised in the virtual-time check C16.",
     },
     "C11": {
@@ -226,7 +226,7 @@ CHECKS = {
                        "IsCompleted must equal the 40-line sequential definition of the subject kind (replay rules before and after termination, async final value, unicast "
                        "single subscriber and backlog). Concurrent histories (call/return stamps, final subscriber logs as reads) must be linearizable w.r.t. the same "
                        "definition; callbacks must not overlap and must respect the grammar."
-                       " Buffer size 0 is part of the range; publications racing with the terminal call behind a spin barrier, followed by late subscribers."),
+                       " Buffer size 0 is part of the range; publications racing with the terminal call behind a spin barrier, followed by late subscribers. Every Error of a history carries an error value of its own (the stored terminal is the first one); every operation on a subject with a self-unsubscribing subscriber runs under a watchdog (a delivery during which the subscriber leaves must return)."),
         "level_note": ("Two listed unicast findings are reported as KNOWN-FINDING. In the concurrent check the late-subscriber rule of unicast is taken as implemented (it is judged by "
                        "the sequential check). Concurrency coverage is statistical."),
     },
@@ -321,7 +321,7 @@ CHECKS = {
                        "by WithContext callbacks are visible downstream, and every source is subscribed with the subscription context."
                        " Time-driven and hand-off operators (Delay, DelayEach, Timeout, SampleTime, ThrottleTime, time buffers, ObserveOn, SubscribeOn and chains of them, Zip / CombineLatest / WindowWhen with timers) run in virtual time with the same markers: subscription value on every callback, item context travelling with its item, upstream value on forwarded terminals and on Timeout's own error once an item has passed."
                        " Sources written with the context-less API (notifications arrive with context.Background()): what a context operator below the source attaches must be on every kind of notification."
-                       " The context operators themselves (ContextWithValue, ContextWithDeadline, ContextWithTimeout, ContextReset incl. nil, ContextMap, ContextMapI) against their documented effect, with pass-through stages in front and behind."),
+                       " The context operators themselves (ContextWithValue, ContextWithDeadline, ContextWithTimeout, ContextReset incl. nil, ContextMap, ContextMapI) against their documented effect, with pass-through stages in front and behind. The float operators of the math group (Round, Abs, Floor, Ceil, Trunc, Floor/CeilWithPrecision at 21 precisions from -1000 to 1000) over finite, zero, subnormal, largest, NaN and infinite values: the k-th output carries the subscription mark, the mid-pipeline mark and the k-th item mark."),
         "level_note": ("Documented exceptions are encoded, not filtered ad hoc: DefaultIfEmptyWithContext (explicit context), stages that never subscribe their source "
                        "(Take(0) ...), values a stage produces itself (StartWith prefixes, fallbacks). Hand-off/time rows (Delay, ObserveOn, Zip ...) are checked in C08/C16/C05 harnesses."),
     },
@@ -339,7 +339,7 @@ CHECKS = {
                        "the 2nd and 3rd subscription, of subscriptions alive at the same time, of concurrent subscriptions, and of pipelines built by applying one "
                        "operator value to several sources must equal the trace of a first subscription to a freshly built pipeline; the source must not be "
                        "subscribed at construction and exactly as often per Subscribe as the definition says (counted on the model)."
-                       " Multi-source operators: two overlapping subscriptions to ONE observable over hot sources, second subscription and first unsubscription at every position, each judged by its own step model, per-source count of live subscriptions compared after every step. Time-related operator values and observables (ContextWithTimeout, Timeout, Delay, samplers, time buffers, Timer, Interval*, *WithInterval, TakeUntil(Timer)...) are subscribed after ageing 1 ms..5 s in virtual time and a second time: same notifications at the same offsets and the same relative context deadlines as a fresh one."),
+                       " Multi-source operators: two overlapping subscriptions to ONE observable over hot sources, second subscription and first unsubscription at every position, each judged by its own step model, per-source count of live subscriptions compared after every step. Time-related operator values and observables (ContextWithTimeout, Timeout, Delay, samplers, time buffers, Timer, Interval*, *WithInterval, TakeUntil(Timer)...) are subscribed after ageing 1 ms..5 s in virtual time and a second time: same notifications at the same offsets and the same relative context deadlines as a fresh one. Every subscription of the resubscribe / apply-many modes brings a context marked with its number: no notification may carry the mark of another subscription."),
         "level_note": "Hot constructs (subjects, Share*, connectables) are excluded as the property says; concurrent mode is statistical (scheduler-dependent).",
     },
     "C01": {
